@@ -133,7 +133,7 @@ func (n *Net) SnapshotNode(src *Node, dir string) (*Node, error) {
 	app.History = append([]AppRecord(nil), src.App.History...)
 	app.Anomalies = nil
 	nd.App = &app
-	nd.Pool = &MockPool{node: i, TxsPer: src.Pool.TxsPer}
+	nd.Pool = &MockPool{node: i, TxsPer: src.Pool.TxsPer, TxBytes: src.Pool.TxBytes, counter: src.Pool.counter}
 	return nd, nil
 }
 
